@@ -88,6 +88,10 @@ Section Items.
     Proof. intros H. destruct l; [assumption|now inversion H]. Qed.
     Lemma Forall_skipn l : forall k, Forall P l -> Forall P (skipn k l).
     Proof. induction l as [|y r IH]; intros [|k] H; cbn [skipn]; try assumption. inversion H; subst. auto. Qed.
+    Lemma Forall_firstn l : forall k, Forall P l -> Forall P (firstn k l).
+    Proof.
+      induction l as [|y r IH]; intros [|k] H; cbn [firstn]; try constructor; inversion H; subst; auto.
+    Qed.
   End ForallOps.
 
   Lemma lok_replace_child l i x : lok l -> iok x -> lok (replace_child l i x).
@@ -162,6 +166,9 @@ Section Items.
       constructor; [|apply IHl; assumption].
       destruct m; [assumption|]. exact (H1 H3).
     Qed.
+
+    Lemma substitute_ok_eq pat sub t x m : substitute t pat sub = (x, m) -> iok sub -> iok t -> iok x.
+    Proof. intros E Hs Ht. replace x with (fst (substitute t pat sub)) by now rewrite E. now apply substitute_ok. Qed.
 
     (* ---- Item::container ---- *)
     Lemma container_item_ok pat t : forall y, iok t -> container t pat = COk y -> iok y.
